@@ -307,13 +307,15 @@ copy_sds(int32 sd_in, int32 sd_out, int32 tag, /* tag of input SDS */
          *-------------------------------------------------------------------------
          */
         if (options->trip > 0) {
-            int count    = 1, nchunks;
-            int maxchunk = INT_MAX;
+            int nchunks  = 1;
+            int maxchunk = MAX_REF; /* every chunk takes a reference number */
             if ((chunk_flags == HDF_CHUNK) || (chunk_flags == (HDF_CHUNK | HDF_COMP))) {
-                for (j = 0; j < rank; j++) {
-                    count *= chunk_def.chunk_lengths[j];
+                /* chunks along each dimension, the last one possibly partial; stop counting above the limit */
+                for (j = 0; j < rank && nchunks <= maxchunk; j++) {
+                    int32 cl = chunk_def.chunk_lengths[j];
+                    int32 nj = (cl > 0) ? (dimsizes[j] + cl - 1) / cl : 1;
+                    nchunks  = (nj > maxchunk / nchunks) ? maxchunk + 1 : nchunks * nj;
                 }
-                nchunks = nelms / count;
                 if (nchunks > maxchunk) {
                     printf("Warning: number of chunks is %d (greater than %d). Not chunking <%s>\n", nchunks,
                            maxchunk, path);
